@@ -1,5 +1,6 @@
 import Setec.Proofs.DB
 import Setec.Spec.DBMon
+import Setec.Proofs.MonitorsSound
 /-!
 # C02 - the versioned store behaves exactly as its sequential specification
 
@@ -228,26 +229,6 @@ def obsOf (kv : KV) (c : Caller) (op : Op) (aok sok : Bool) : StepObs :=
   { pre := kv, caller := c, op := op, auditOk := aok, saveOk := sok, res := r.2.1, entries := r.2.2,
     entryBefore := none, post := r.1, mem := none }
 
-/-- a listing walks the names in order and reports each secret's versions and active version -/
-theorem list_items (kv : KV) (g : String → Bool) (l : List (String × Secret))
-    (hl : ∀ p ∈ l, kv.secrets[p.1]? = some p.2) :
-    (((l.map (·.1)).filter g).filterMap fun n => match info kv n with
-        | .ok (vs, a) => some (n, vs, a)
-        | .error _ => none) =
-    (l.filter (fun p => g p.1)).map (fun p => (p.1, p.2.versions.keys, p.2.active)) := by
-  induction l with
-  | nil => rfl
-  | cons p rest ih =>
-    have hp := hl p (List.mem_cons_self)
-    have ih' := ih (fun q hq => hl q (List.mem_cons_of_mem _ hq))
-    simp only [List.map_cons, List.filter_cons]
-    by_cases hg : g p.1 = true
-    · have hinfo : info kv p.1 = .ok (p.2.versions.keys, p.2.active) := by simp [KV.info, hp]
-      simp only [hg, if_true, List.filterMap_cons, List.map_cons, hinfo]
-      rw [ih']
-    · simp only [hg, Bool.false_eq_true, if_false]
-      exact ih'
-
 /-- the specification's step satisfies the total-reads clause, always -/
 theorem reads_total_on_model (kv : KV) (c : Caller) (op : Op) (aok sok : Bool) :
     c02_reads_total (obsOf kv c op aok sok) = true := by
@@ -279,7 +260,7 @@ theorem reads_total_on_model (kv : KV) (c : Caller) (op : Op) (aok sok : Bool) :
       · simp [hg]
     | list =>
       simp only [c02_reads_total, obsOf, step, allowed, granted, Cfg.std, KV.list]
-      have := list_items kv (fun n => Acl.allow true c.rules "info" n.toList) kv.secrets.toList
+      have := MonSound.list_items kv (fun n => Acl.allow true c.rules "info" n.toList) kv.secrets.toList
         (fun p hp => by
           have := (ExtTreeMap.mem_toList_iff_getElem?_eq_some (t := kv.secrets) (k := p.1) (v := p.2)).mp hp
           exact this)
@@ -287,5 +268,17 @@ theorem reads_total_on_model (kv : KV) (c : Caller) (op : Op) (aok sok : Bool) :
       simp
       exact this
     | _ => simp [c02_reads_total, obsOf]
+
+/-- ...and so does it satisfy `failed_noop`, `frame` and `reads`, in every state that satisfies the
+store invariant (every reachable one) -/
+theorem monitors_sound (kv : KV) (hinv : Inv kv) (c : Caller) (op : Op) (aok sok : Bool) :
+    c02_failed_noop (MonSound.obsOf kv c op aok sok) = true ∧
+    c02_frame (MonSound.obsOf kv c op aok sok) = true ∧
+    c02_reads (MonSound.obsOf kv c op aok sok) = true := by
+  refine ⟨?_, MonSound.c02_frame_sound kv c op aok sok hinv, MonSound.c02_reads_sound kv c op aok sok⟩
+  simp only [c02_failed_noop, MonSound.obsOf]
+  by_cases h : (step Cfg.std kv c op aok sok).2.1.isError = true
+  · simp [h, failed_calls_noop kv hinv c op aok sok h]
+  · simp [h]
 
 end Setec.C02
